@@ -11,6 +11,7 @@ import ir
 from ir import IntT, FloatT, PtrT, ArrT, StructT, VecT, FuncT, VoidT, sizeof, struct_offsets
 
 M64 = (1 << 64) - 1
+NEAR_TIE = Fraction(1, 10 ** 9)
 ADDR_BASE = 0x5A5A00010000      # llsym object addresses live far from the small / boundary values solvers like to pick
 
 
@@ -152,6 +153,7 @@ class Exec:
         self.next_addr = ADDR_BASE
         self.gaddr, self.faddr, self.addr_func = {}, {}, {}
         self.sym_counter = 0
+        self.name_counter = {}
         self.names = {}
         self.depth = 0
         self.trace = []          # harness-level actions (for native replay)
@@ -182,9 +184,17 @@ class Exec:
         return self._func_addr(pyfunc_or_name)
 
     # ------------------------------------------------------------ symbols
-    def fresh_bv(self, name, bits):
+    def _name(self, name):
+        """Fresh names are numbered per base name, so that the names of harness-level inputs do not depend on how many
+        auxiliary symbols (sqrt, hypot, libm results, generalisation variables) a hook created before them - those are
+        created in symbolic runs only, and a global counter would give the inputs different names in the concrete re-run."""
+        k = self.name_counter.get(name, 0) + 1
+        self.name_counter[name] = k
         self.sym_counter += 1
-        nm = "%s!%d" % (name, self.sym_counter)
+        return "%s!%d" % (name, k)
+
+    def fresh_bv(self, name, bits):
+        nm = self._name(name)
         if self.concrete is not None:
             return int(self.concrete.get(nm, 0)) & ((1 << bits) - 1)
         v = z3.BitVec(nm, bits)
@@ -192,8 +202,7 @@ class Exec:
         return v
 
     def fresh_real(self, name):
-        self.sym_counter += 1
-        nm = "%s!%d" % (name, self.sym_counter)
+        nm = self._name(name)
         if self.concrete is not None:
             return Fraction(self.concrete.get(nm, 0))
         v = z3.Real(nm)
@@ -201,8 +210,7 @@ class Exec:
         return v
 
     def fresh_bool(self, name):
-        self.sym_counter += 1
-        nm = "%s!%d" % (name, self.sym_counter)
+        nm = self._name(name)
         if self.concrete is not None:
             return int(bool(self.concrete.get(nm, False)))
         v = z3.Bool(nm)
@@ -213,10 +221,13 @@ class Exec:
     def _check(self, extra=None):
         t0 = time.time()
         self.stats["queries"] += 1
+        nra = self.s is None and self.solver_mode == "nra"
         if self.s is not None:
             r = self.s.check(*( [extra] if extra is not None else []))
         else:
             s = self._fresh_solver()
+            if nra and self.timeout_ms > 10000:
+                s.set("timeout", 10000)          # first attempt: 10 s of nlsat; the full limit comes after the second engine
             s.add(*self.pc)
             if extra is not None:
                 s.add(extra)
@@ -227,23 +238,80 @@ class Exec:
         if dt > self.stats.get("max_query_s", 0):
             self.stats["max_query_s"] = dt
         if r == z3.unknown:
-            # retry once with a fresh, non-incremental solver and a longer limit before giving up
             t1 = time.time()
+            self.stats["retries"] = self.stats.get("retries", 0) + 1
             s2 = z3.Solver()
             s2.set("timeout", self.timeout_ms)
             s2.add(*self.pc)
             if extra is not None:
                 s2.add(extra)
+            text = s2.to_smt2()
             if os.environ.get("VERIF_DUMP"):
                 with open(os.path.join(os.environ["VERIF_DUMP"], "q%d_%d.smt2" % (os.getpid(), self.stats["queries"])), "w") as fh:
-                    fh.write(s2.to_smt2())
-            r = s2.check()
-            self.stats["retries"] = self.stats.get("retries", 0) + 1
+                    fh.write(text)
+            why = ""
+            if nra:
+                # second engine: the packaged z3 4.8.12 binary on the same SMT-LIB text (its nonlinear-arithmetic heuristics
+                # differ from the 5.1 library's: 0.04 s on satisfiable branch-feasibility queries the library gives up on)
+                r = self._external_z3(text, limit_s=30)
+                if r == z3.unknown and self.timeout_ms > 10000:
+                    s3 = self._fresh_solver()       # nlsat again with the full limit
+                    s3.add(*self.pc)
+                    if extra is not None:
+                        s3.add(extra)
+                    r = s3.check()
+                    self._last = s3
+                    why = s3.reason_unknown() if r == z3.unknown else ""
+            if r == z3.unknown:
+                # last: a fresh, non-incremental default solver with the full limit
+                r = s2.check()
+                why = s2.reason_unknown() if r == z3.unknown else ""
             self.stats["solver_s"] += time.time() - t1
             if r == z3.unknown:
                 self.stats["unknown"] += 1
-                raise SolverUnknown((str(extra)[:200] if extra is not None else "pc") + " reason=" + s2.reason_unknown())
+                raise SolverUnknown((str(extra)[:200] if extra is not None else "pc") + " reason=" + why)
         return r == z3.sat
+
+    def _external_z3(self, text, limit_s=30):
+        import subprocess, shutil
+        exe = "/usr/bin/z3" if os.path.exists("/usr/bin/z3") else shutil.which("z3")
+        if not exe:
+            return z3.unknown
+        t0 = time.time()
+        try:
+            p = subprocess.run([exe, "-in", "-T:%d" % limit_s], input=text, stdout=subprocess.PIPE, stderr=subprocess.PIPE,
+                               universal_newlines=True, timeout=limit_s + 10)
+            out = p.stdout.strip().splitlines()
+        except Exception:
+            out = []
+        self.stats["solver_s"] += time.time() - t0
+        self.stats["external_z3"] = self.stats.get("external_z3", 0) + 1
+        if any("(error" in l for l in out):
+            return z3.unknown
+        if out and out[0] == "sat":
+            return z3.sat
+        if out and out[0] == "unsat":
+            return z3.unsat
+        return z3.unknown
+
+    def prove(self, c, keep=None, timeout_ms=20000):
+        """True when pc (or the subset selected by keep) implies c within the limit; never reports anything."""
+        if isinstance(c, (bool, int)):
+            return bool(c)
+        if self.concrete is not None:
+            c = z3.simplify(c)
+            return z3.is_true(c)
+        s = self._fresh_solver()
+        s.set("timeout", timeout_ms)
+        for q in self.pc:
+            if keep is None or keep(q):
+                s.add(q)
+        s.add(z3.Not(c))
+        t0 = time.time()
+        r = s.check()
+        self.stats["queries"] += 1
+        self.stats["solver_s"] += time.time() - t0
+        return r == z3.unsat
 
     def _fresh_solver(self):
         if self.solver_mode == "nra":
@@ -390,8 +458,7 @@ class Exec:
         """Harness-level nondeterministic choice over a finite list: a decision like a branch; the chosen
         index is recorded in the model so that the choice replays concretely."""
         n = len(options)
-        self.sym_counter += 1
-        nm = "%s!%d" % (tag, self.sym_counter)
+        nm = self._name(tag)
         if n == 1:
             return options[0]
         if self.concrete is not None:
@@ -449,6 +516,47 @@ class Exec:
             raise Abort()
         self.add(c)
         return False
+
+    def check_abs(self, c, label, terms=(), detail="", abort=True, timeout_ms=20000, lemmas=(), keep=None):
+        """Obligation pc => c, first tried on a generalisation: every occurrence of the given subterms (in the path
+        condition and in c) is replaced by a fresh real variable.  The generalised implication is stronger, so
+        'unsat' settles the obligation; any other answer falls back to the exact query (check), which alone may
+        report a finding.  lemmas: facts about those subterms that the caller has already established as obligations
+        on the exact path condition; they are added to the generalised query (the rewriter may have changed the shape
+        of the path condition's own constraints on the subterms, so the substitution alone can lose them).
+        keep: predicate on path-condition constraints; those it rejects are left out of the first attempt (fewer
+        assumptions = a stronger statement again, so 'unsat' still settles the obligation)."""
+        if self.concrete is not None or isinstance(c, (bool, int)):
+            return self.check(c, label, detail, abort)
+        subs, seen = [], set()
+        for t in terms:
+            if z3.is_expr(t) and not z3.is_rational_value(t) and t.get_id() not in seen and not z3.is_const(t):
+                seen.add(t.get_id())
+                subs.append((t, z3.Real(self._name("abs"))))
+        if subs or keep is not None:
+            t0 = time.time()
+            s = self._fresh_solver()
+            s.set("timeout", timeout_ms)
+            for q in self.pc:
+                if keep is not None and not keep(q):
+                    continue
+                s.add(z3.substitute(q, *subs) if subs else q)
+            for q in lemmas:
+                if z3.is_expr(q):
+                    s.add(z3.substitute(q, *subs) if subs else q)
+            s.add(z3.substitute(z3.Not(c), *subs) if subs else z3.Not(c))
+            r = s.check()
+            self.stats["queries"] += 1
+            self.stats["solver_s"] += time.time() - t0
+            if r == z3.unsat:
+                self.nchecks = getattr(self, "nchecks", 0) + 1
+                self.nontrivial = getattr(self, "nontrivial", 0) + 1
+                self.stats["generalised"] = self.stats.get("generalised", 0) + 1
+                return True
+            self.stats["generalisation_failed"] = self.stats.get("generalisation_failed", 0) + 1
+            if os.environ.get("VERIF_DEBUG_ABS"):
+                sys.stderr.write("check_abs %s: %s after %.1fs (%d terms)\n" % (label, r, time.time() - t0, len(subs)))
+        return self.check(c, label, detail, abort)
 
     # ------------------------------------------------------------ memory
     def _new_obj(self, size, kind, name):
@@ -971,6 +1079,9 @@ class Exec:
         if pred == "uno": return 0
         p = pred[1:]
         if isinstance(a, Fraction) and isinstance(b, Fraction):
+            if self.concrete is not None and a != b and abs(a - b) <= NEAR_TIE * max(abs(a), abs(b)):
+                # exact-real replay of a path whose native twin runs in IEEE doubles: a comparison this close may go the other way there
+                self.near_ties = getattr(self, "near_ties", 0) + 1
             return int({"eq": a == b, "ne": a != b, "gt": a > b, "ge": a >= b, "lt": a < b, "le": a <= b}[p])
         x, y = to_real(a), to_real(b)
         r = {"eq": lambda: x == y, "ne": lambda: x != y, "gt": lambda: x > y, "ge": lambda: x >= y,
@@ -1239,8 +1350,8 @@ class Exec:
         if z3.is_false(c): return b
         if isinstance(ty, FloatT):
             a, b = self.as_real(a, ty), self.as_real(b, ty)
-            if isinstance(a, NF) or isinstance(b, NF):
-                return a if self.branch(c) else b
+            if isinstance(a, NF) or isinstance(b, NF) or getattr(self, "branch_real_select", False):
+                return a if self.branch(c) else b       # real domain: a decision instead of an if-then-else term (nlsat does badly on those)
             return z3.If(c, to_real(a), to_real(b))
         if isinstance(ty, IntT) and ty.bits == 1:
             x = a if is_sym(a) else z3.BoolVal(bool(a))
@@ -1319,6 +1430,8 @@ def install_default_hooks(ex):
         x = ex.as_real(x)
         if isinstance(x, Fraction): return abs(x)
         if isinstance(x, NF): return NF(x.kind, 1)
+        if getattr(ex, "branch_real_select", False):
+            return x if ex.branch(x >= 0) else z3.simplify(-x)
         return z3.If(x >= 0, x, -x)
 
     def h_fmuladd(ex, a, b, c):
@@ -1412,6 +1525,25 @@ def install_default_hooks(ex):
               "llvm.ctlz.i32": mk_ctlz(32), "llvm.ctlz.i64": mk_ctlz(64),
               "llvm.va_end": lambda ex, *a: None, "llvm.dbg.declare": lambda ex, *a: None, "llvm.dbg.value": lambda ex, *a: None,
               "llvm.lifetime.start.p0i8": lambda ex, *a: None, "llvm.lifetime.end.p0i8": lambda ex, *a: None})
+
+
+def var_names(e, _cache={}):
+    """names of the uninterpreted constants in a z3 term"""
+    k = e.get_id()
+    if k in _cache:
+        return _cache[k]
+    out, seen, todo = set(), set(), [e]
+    while todo:
+        t = todo.pop()
+        i = t.get_id()
+        if i in seen:
+            continue
+        seen.add(i)
+        if z3.is_const(t) and t.decl().kind() == z3.Z3_OP_UNINTERPRETED:
+            out.add(t.decl().name())
+        todo.extend(t.children())
+    _cache[k] = out
+    return out
 
 
 # ------------------------------------------------------------------ exploration driver
